@@ -1107,6 +1107,7 @@ fn run_step_zone(c: &mut Ctx) {
 }
 
 pub fn run(c: &mut Ctx) {
+    crate::aliases::c08(c);
     run_step_zone(c);
     // ---- block plan (digests over every date of a block of years) -------------------------------------
     let month_counts: Vec<u32> = vec![0, 1, 11, 12, 13, 1199, 4800, 3_121_700, i32::MAX as u32, i32::MAX as u32 + 1, u32::MAX];
